@@ -25,3 +25,21 @@ func init() {
 		Assumptions: []string{refAssumption, hookAssumption, "32-bit arguments are sampled (boundaries, bit walks, random), not enumerated"},
 		Plan: func(tier string) []Batch { return same(n(tier, 8, 16), Batch{Timeout: 20 * time.Minute}) }}
 }
+
+func init() {
+	specs["C02"] = &Spec{ID: "C02", Level: "exploration", Parallel: 8,
+		Assumptions: []string{refAssumption, hookAssumption, "process time zone UTC (zone dependence is C13's subject)", "two digit system years >= 69, BCD year 0000 and the date 0001-01-01 are outside the stated domain (don't-care)"},
+		Plan: func(tier string) []Batch { return same(n(tier, 8, 16), Batch{Timeout: 30 * time.Minute}) }}
+}
+
+func init() {
+	specs["C12"] = &Spec{ID: "C12", Level: "exploration", Parallel: 12,
+		Assumptions: []string{"beyond the enumerated lengths the coding is position independent (stated in the property); the random part samples lengths up to 64"},
+		Plan: func(tier string) []Batch { return same(n(tier, 12, 24), Batch{Timeout: 20 * time.Minute}) }}
+	specs["C15"] = &Spec{ID: "C15", Level: "exploration", Parallel: 16,
+		Assumptions: []string{"strings that contain a dotted quad but are not exactly a.b.c.d[:port] in canonical decimal are don't-care (the statement is silent about them)"},
+		Plan: func(tier string) []Batch { return same(n(tier, 16, 32), Batch{Timeout: 30 * time.Minute, Procs: 1}) }}
+	specs["C16"] = &Spec{ID: "C16", Level: "exploration", Parallel: 8,
+		Assumptions: []string{hookAssumption, "DateTime.Before is judged for instants from 1970 on, as the property states"},
+		Plan: func(tier string) []Batch { return same(n(tier, 8, 16), Batch{Timeout: 30 * time.Minute}) }}
+}
